@@ -73,7 +73,11 @@ func genRichWork(c *core.Ctx, r *core.Rand, js, up bool) *c13Work {
 		n := r.Range(3, 25)
 		var recs []gen.Rec
 		for i := 0; i < n; i++ {
-			recs = append(recs, k.GenRec(r, i))
+			rec := k.GenRec(r, i)
+			if len(rec.F) > 0 && r.Chance(1, 5) {
+				rec.F[r.Intn(len(rec.F))] = omni.FailMarker // vf_fail refuses this value
+			}
+			recs = append(recs, rec)
 		}
 		w.format, w.input, vocab = f, k.Render(r, recs, gen.RenderOpts{BlankLines: r.Chance(1, 3)}), k.FlatVocab()
 		json.Unmarshal(k.Schema(gen.ModePass), &doc)
@@ -86,7 +90,7 @@ func genRichWork(c *core.Ctx, r *core.Rand, js, up bool) *c13Work {
 			up = false // flat kits have fixed ancestors
 		}
 	}
-	decls, stats := gen.GenRichDecls(r, vocab, gen.RichOpts{MaxDepth: r.Range(2, 5), JS: js, AllowUp: up, HarnessFns: true, Copy: true, Externals: []string{"ext1", "ext2", "missing"}})
+	decls, stats := gen.GenRichDecls(r, vocab, gen.RichOpts{MaxDepth: r.Range(2, 5), JS: js, AllowUp: up, HarnessFns: true, Copy: true, FailFn: r.Chance(1, 2), Externals: []string{"ext1", "ext2", "missing"}})
 	if target != "" {
 		decls["FINAL_OUTPUT"].(gen.D)["xpath"] = target
 	}
